@@ -39,7 +39,7 @@ def run(ctx):
                                  allplat=False, plats=[], nocross=False, boost=False, query="lex", corpus="bigtie", prime="none"))
     # databases that do not come from the YAML loader (literal command list, commands installed at run time, the built-in
     # fallback): the long-lived object has answered many queries, the re-built copy none - both must answer alike
-    for corpus in ("lit", "updated", "fallback"):
+    for corpus in ("lit", "updated", "fallback", "grown"):
         for raw in ("find files", "list files", "find item", "delete item", "show item question", "frobnicate widget", "copy files",
                     "search text in files", "show running process", "list directory"):
             for entry, nlp in (("universal", True), ("universal", False), ("cached", True), ("legacynlp", True), ("legacyoptions", False)):
